@@ -35,7 +35,7 @@ def generate(seed, tier):
     rng = random.Random(seed)
     mode = rng.choice(["initial", "initial", "sequences", "model"])
     K = rng.randint(1, 3)
-    case = {"seed": seed, "q": rng.choice([0.0, 0.1, 0.4]), "mode": mode, "K": K, "sut_seed": rng.randint(0, 10**6),
+    case = {"seed": seed, "q": rng.choice([0.0, 0.1, 0.4]), "mode": mode, "K": K, "sut_seed": rng.choice([0, 0, 1, rng.randint(0, 10**6), rng.randint(0, 10**6), rng.randint(0, 10**6), rng.randint(0, 10**6)]),
             "burn_in": rng.randint(0, 5), "thin": rng.choice([0, 1, 1, 2, 3]), "n_samples": rng.randint(1, 4 if tier == "quick" else 8)}
     if mode == "initial":
         spec = _gen.rand_hypergraph_spec(rng, nmin=3, nmax=8, emin=2, emax=9, smin=2, smax=5)
